@@ -832,3 +832,32 @@ def r_repreq(ctx, funcs, rule: str = 'R-REPREQ') -> int:
                 if all(isinstance(x, ast.Call) and isinstance(x.func, ast.Name) and x.func.id in ('repr', 'str') and len(x.args) == 1 for x in sides):
                     ctx.fail(rule, fn, f'equality decided by comparing printed forms: `{core.src(c)}` (the DSL repr is not injective)', c)
     return n
+
+
+def r_nebool(ctx, tenv, funcs, rule: str = 'R-NEBOOL') -> int:
+    """``a != b`` between DSL operables *builds a NotEqual expression* (a non-empty tuple: always truthy) - only ``==`` goes
+    through the boolean identity proxy.  Used as a condition (if/while/and/or/not/ifexp/comprehension filter) it is a
+    constant True.  Returns the number of boolean contexts inspected."""
+    prog = ctx.prog
+    operable = prog.cls(f'{SERIES}:Operable')
+    predicate = prog.cls(f'{SERIES}:Predicate')
+    n = 0
+    for fn in funcs:
+        env = None
+        for expr, kind, owner in types.bool_contexts(fn.node):
+            n += 1
+            for c in ast.walk(expr):
+                if isinstance(c, ast.Compare) and len(c.ops) == 1 and isinstance(c.ops[0], ast.NotEq):
+                    if env is None:
+                        env = tenv.locals(fn)
+                    for side in (c.left, c.comparators[0]):
+                        try:
+                            t = tenv.expr_type(fn, side, env)
+                        except Exception:
+                            t = None
+                        t = types.strip_opt(t) if t else None
+                        ci = prog.classes.get(t[1]) if t and t[0] == 'cls' else None
+                        if ci is not None and (ci is operable or ci is predicate or ci.is_subclass_of(operable) or ci.is_subclass_of(predicate)):
+                            ctx.fail(rule, fn, f'`{core.src(c)}` in a boolean context: `!=` on a DSL operable builds a NotEqual expression, which is always truthy (use `not a == b`)', c)
+                            break
+    return n
